@@ -91,6 +91,7 @@ def bucket_events(tag, total):
 
 CORPUS = ["INVALID", "U:999999", "UNIMOD:Nope", "Formula:Xx2", "Glycan:Foo", "Obs:abc", "U:+1a", "M:00000000", "X:nope",
           "R:nope", "G:nope", "Nope|INFO:x", "INFO:only", "Formula:", "Glycan:", "Glycan:Hex2Foo", "MOD:xyz", "Oxidized", "unimod:",
+          "Formula:C2:H4", "Obs:1.5:35", "Glycan:Hex:Hex", "Formula:[]", "Formula:C[]", "U:+1:5",
           "Oxidation", "U:35", "+15.995", "Formula:C2H4", "Glycan:Hex", "Obs:+1.5", "Oxidation|Nope", "Nope|Oxidation"]
 SLOTS = ["internal", "nterm", "cterm", "unknown", "labile", "interval", "static", "static_nterm"]
 # global isotope labels and charge adducts have their own value grammars
@@ -98,7 +99,21 @@ ISOTOPE_CORPUS = ["13C", "15N", "D", "T", "2H", "18O", "34S", "Foo", "13X", "99C
 ADDUCT_CORPUS = ["+H+", "+2Na+,+H+", "+K+", "-H+", "+Ca2+", "+Cl-", "+e-", "+Foo+", "", "+2Xx+", "+Na+,+Qq+"]
 
 
-def deferred_event(pp, tid, value, slot, rnd):
+# generated modification values: prefix x 1..3 body pieces (balanced brackets everywhere; stray brackets only in the
+# labile slot, whose braces do not count brackets).  Whether the string is syntactically valid is the parser's call
+# (strict = False): the clauses about mass / composition are judged only when it parses.
+PREFIXES = ["", "U:", "UNIMOD:", "M:", "MOD:", "R:", "X:", "G:", "Formula:", "Glycan:", "Obs:", "INFO:", "formula:", "glycan:"]
+PIECES = ["C", "H2", "O-1", "Xx", "13", "[13C2]", "[13C]", "[C13]", "-", "+", "1", ".", "Hex", "HexNAc2", "Foo", "(", ")", " ",
+          "c", "e", "1.5", "+15.99", "Oxidation", "35", "#g1", "^2", ":"]
+STRAY = ["[", "]", "]C", "[C", "[]"]
+
+
+def gen_value(rnd, slot):
+    pieces = PIECES + (STRAY if slot == "labile" else ["[]"])
+    return rnd.choice(PREFIXES) + "".join(rnd.choice(pieces) for _ in range(rnd.randint(0, 3)))
+
+
+def deferred_event(pp, tid, value, slot, rnd, strict=True):
     n = rnd.randint(1, 5)
     A = anngen.empty(rnd.choice("ACDEFGHIKLMNPQRSTVWY") for _ in range(n))
     m = {"v": "s:" + value, "m": 1}
@@ -113,12 +128,30 @@ def deferred_event(pp, tid, value, slot, rnd):
     else:
         A[slot] = [m]
     text = anngen.render(A)
-    o, a = call(pp.parse, text)
-    ev = {"tid": tid, "k": "deferred", "v": "s:" + value, "slot": slot, "text": text, "parse": exc_info(o, a)}
-    o2, r2 = call(pp.mass, text)
-    o3, r3 = call(pp.comp, text)
+    o, a = call(pp.parse, text, watchdog=2.0)
+    ev = {"tid": tid, "k": "deferred", "v": "s:" + value, "slot": slot, "text": text, "parse": exc_info(o, a),
+          "strict": strict}
+    o2, r2 = call(pp.mass, text, watchdog=2.0)
+    o3, r3 = call(pp.comp, text, watchdog=2.0)
     ev["mass"], ev["comp"] = exc_info(o2, r2), exc_info(o3, r3)
+    # facts for the "silently counted as zero" clause: the unmodified peptide's mass / composition came back
+    bare = "".join(A["seq"])
+    ev["massUnchanged"] = bool(o2 == "ret" and abs(r2 - pp.mass(bare)) < 1e-9)
+    ev["compUnchanged"] = bool(o3 == "ret" and dict(r3) == dict(pp.comp(bare)))
+    # does the returned annotation hold the value as written (one modification, this text)?
+    ev["held"] = bool(o == "ret" and value in {str(m.val) for m in _all_mods(a)})
     return ev
+
+
+def _all_mods(a):
+    out = []
+    for name in ("labile_mods", "unknown_mods", "nterm_mods", "cterm_mods", "static_mods"):
+        out += list(getattr(a, name, None) or [])
+    for v in (getattr(a, "internal_mods", None) or {}).values():
+        out += list(v)
+    for iv in (getattr(a, "intervals", None) or []):
+        out += list(iv.mods or [])
+    return out
 
 
 def mutate(rnd, s):
@@ -162,10 +195,22 @@ def run(tier, seed, rep):
             b[1].append(s)
     evs += bucket_events("R", buckets)
     j = 0
-    for v in CORPUS:
+    # vocabulary entries that exist but carry neither a mass nor a composition (read from the bundled OBO files by
+    # harness/obo.py, not through the library), and wrong-case spellings of valid names placed AFTER the valid ones
+    from harness import obo
+    nomass = []
+    rows = [r_ for r_ in obo.psimod() if r_.get("mono") is None and r_.get("comp") is None and r_.get("avg") is None]
+    rows = rows if thorough else rows[:3] + rnd.sample(rows, min(5, len(rows)))
+    nomass = ["MOD:" + r_["id"] for r_ in rows] + ["XLMOD:00000"]
+    wrongcase = [v.lower() if v.lower() != v else v.upper() for v in ("Oxidation", "U:Oxidation", "Formula:C2H4", "Glycan:Hex",
+                                                                        "Phospho", "Carbamidomethyl")]
+    for v in CORPUS + nomass + wrongcase:
         for slot in SLOTS:
             evs.append(deferred_event(pp, f"D{j}", v, slot, rnd))
             j += 1
+    for i in range(20000 if thorough else 2500):
+        slot = rnd.choice(SLOTS[:6])
+        evs.append(deferred_event(pp, f"G{i}", gen_value(rnd, slot), slot, rnd, strict=False))
     # conformance of the TLA+ parser machine with the real parser on every short token string (evidence, not a verdict:
     # C09 does not say which malformed strings are rejected, so a divergence is recorded, never reported as a violation)
     r = core.model_check("MC_Parser", "MC_Parser.cfg", workers=8)
@@ -220,7 +265,7 @@ def replay(path):
             new.append({"tid": f"R.{i}", "k": "bucket", "outcome": {"cls": k[0], "isv": k[1], "ser": k[2]}, "valid": k[3],
                         "count": 1, "witness": [s]})
     elif ev["k"] == "deferred":
-        new = [deferred_event(pp, "R.0", ev["v"][2:], ev["slot"], random.Random(0))]
+        new = [deferred_event(pp, "R.0", ev["v"][2:], ev["slot"], random.Random(0), strict=ev.get("strict", True))]
     else:
         new = [ev]
     res = core.validate_traces("Trace_Parser", new, "C09")
